@@ -60,6 +60,15 @@ def main():
         "not_applicable": na,
         "notes": "exit 0 held / 1 VIOLATION / 2 harness error. VERIF_SEED selects the Hypothesis seed (seed*1000+shard). Regression replays in replay/<ID>/ run first in every check.",
     }
+    # plain-text view of known_findings.json (same content, one line per entry)
+    kf = json.load(open(os.path.join(HERE, "known_findings.json")))["findings"]
+    with open(os.path.join(HERE, "known_findings.txt"), "w") as fh:
+        fh.write("# generated from known_findings.json by tools/mkmanifest.py - never written at check run time\n")
+        for k in kf:
+            if k["status"] == "fixed":
+                fh.write(k["line"] + "\n")
+            else:
+                fh.write("known-finding: property=%s %s: %s (signature %s, predicate %s, replay %s)\n" % (k["property"], k["id"], k["what"], k["signature"], k.get("predicate"), k.get("replay")))
     with open(os.path.join(HERE, "MANIFEST.json"), "w") as fh:
         json.dump(manifest, fh, indent=1)
         fh.write("\n")
